@@ -161,13 +161,27 @@ pub fn extract(
             fs.emitter.emit(error!("skipping '{}': {}", display_path, s))
         })?;
 
-        image.save(full_path).map_err(|e| {
+        save_image(image, &full_path).map_err(|e| {
             fs.emitter.emit(error!("while writing '{}': {}", display_path, e))
         })?;
 
         println!("exported '{}'", display_path);
         Ok(())
     }).collect_with_recovery()
+}
+
+/// Like [`image::RgbaImage::save`], but reports all write errors.
+///
+/// (`save` wraps the file in a `BufWriter` that it never flushes, so an error while writing the
+///  last chunk of data — for a small image, all of it — happens in a `Drop` impl and is ignored.)
+fn save_image(image: image::RgbaImage, path: &Path) -> Result<(), image::ImageError> {
+    use std::io::Write;
+
+    let format = image::ImageFormat::from_path(path)?;
+    let mut writer = std::io::BufWriter::new(std::fs::File::create(path)?);
+    image::DynamicImage::ImageRgba8(image).write_to(&mut writer, format)?;
+    writer.flush()?;
+    Ok(())
 }
 
 // based on cargo's normalize_path
